@@ -192,6 +192,8 @@ def history(ctx, kind, viol, st, directed=None):
     npr = np.random.RandomState(rng.randint(0, 10 ** 6))
     d = rng.choice([1, 2, 3]); m = rng.choice([2, 3])
     noise = rng.choice([0.01, 0.1]) if rng.random() < 0.8 or kind == "list" else (np.eye(m) * 0.05 + 0.01)
+    if directed == 2 and kind != "list":
+        noise = np.eye(m) * 0.05 + 0.01            # one directed history per multi-output wrapper uses a full task-noise matrix
     cls = {"corr": CorrelatedExactGPyTorchModel, "indep": IndependentExactGPyTorchModel, "list": GPyTorchModelListExactModel}[kind]
     mdl = cls(d, m, noise)
     held = [[] for _ in range(m)]          # model: per objective list of (x tuple, y)
@@ -213,8 +215,18 @@ def history(ctx, kind, viol, st, directed=None):
             if rng.random() < 0.2 and any(held[0]):
                 X[0] = np.array(held[0][0][0])                     # repeated input
             if kind == "list":
-                form = rng.choice(["int", "list"]) if not script else "all"
-                if form == "all":
+                form = rng.choice(["int", "list"]) if not script else ("all" if (directed is None or step > 0) else "rows-unsorted")
+                if form == "rows-unsorted":
+                    # one batch whose per-row objective indices are NOT grouped: [m-1, 0, m-1, 0, ...] + one of each
+                    ks = [(m - 1) if i % 2 == 0 else 0 for i in range(4)] + list(range(m - 1, -1, -1))
+                    Xr = npr.rand(len(ks), d); yr = npr.randn(len(ks))
+                    mdl.add_sample(Xr, yr, ks)
+                    for x, v, k in zip(Xr, yr, ks):
+                        held[k].append((tuple(x), float(v)))
+                    form = None
+                if form is None:
+                    pass
+                elif form == "all":
                     for k in range(m):
                         y = npr.randn(n)
                         mdl.add_sample(X, y, k)
